@@ -24,6 +24,10 @@ CFG_FREE = gen.Cfg(warm_modes=["morph", "graft", "carry", "append", "nolog"], wa
 CFG_FLAT = gen.Cfg(warm_modes=["morph", "graft", "carry", "append", "nolog"], warm=2, facilities=True, max_time=[40, 80])
 
 
+# many automatic tasks bound to components, project-wide absence steps early in the run (both settings of the flag)
+CFG_AUTO = CFG_FLAT.copy(p_auto=2, abs_max=8, min_comps=1, warm=4)
+
+
 def _with_one_sided_links(cfg):
     """arbitrary forests without workplaces, plus tasks that a component lists without a back link
     (BaseComponent(targeted_task_list=[...])) and tasks listed by two components"""
@@ -45,18 +49,19 @@ def strategy(tier):
     from hypothesis import strategies as st
 
     if tier == "quick":
-        return st.one_of(gen.model_spec(CFG), gen.model_spec(CFG_FREE), _with_one_sided_links(CFG_FREE), gen.model_spec(CFG_FLAT))
+        return st.one_of(gen.model_spec(CFG), gen.model_spec(CFG_FREE), _with_one_sided_links(CFG_FREE), gen.model_spec(CFG_FLAT), gen.model_spec(CFG_AUTO))
     return st.one_of(
         gen.model_spec(CFG.copy(max_tasks=12, max_comps=7)),
         gen.model_spec(CFG_FREE.copy(max_tasks=12, max_comps=7)),
         _with_one_sided_links(CFG_FREE.copy(max_tasks=12, max_comps=7)),
         gen.model_spec(CFG_FLAT.copy(max_tasks=12, max_comps=7)),
+        gen.model_spec(CFG_AUTO.copy(max_tasks=10, max_comps=5)),
     )
 
 
 def budget(tier):
     if tier == "quick":
-        return {"cases": 2000, "shards": 4}
+        return {"cases": 2500, "shards": 5}
     return {"cases": 150000, "shards": 16}
 
 
